@@ -17,11 +17,14 @@ import (
 //	                     getFieldBucket / GetOrCreatePath (true) or through a read-only GetPath (false)
 //	emptyUniqueIsNil     the entity loop of uniqueIndex.CheckIntegrity skips an empty value like nil:
 //	                     `fieldType == TypeNil || len(fieldVal) == 0` (true) or `fieldType == TypeNil` (false)
+//	linkRemoveDeferred   linkCollectionImpl.CheckIntegrity calls RemoveLink for dangling links in a loop AFTER the
+//	                     link-cursor loop (true) or inside it, i.e. deletes under its own cursor (false)
 //
 // Anything else is written as recognised = false, which breaks the obligation `quirks_recognised`.
 type c09Quirks struct {
 	IterateLinksCreates bool   `json:"iterateLinksCreates"`
 	EmptyUniqueIsNil    bool   `json:"emptyUniqueIsNil"`
+	LinkRemoveDeferred  bool   `json:"linkRemoveDeferred"`
 	Recognised          bool   `json:"recognised"`
 	Note                string `json:"note,omitempty"`
 }
@@ -87,6 +90,63 @@ func extractC09Quirks(repo, gen, facts string) {
 			note("IterateLinks: neither a creating nor a read-only bucket lookup found")
 		}
 	}
+	if f, err := parser.ParseFile(fset, filepath.Join(repo, "boltz", "link_collection.go"), nil, 0); err == nil {
+		if fd := c09Method(f, "linkCollectionImpl", "CheckIntegrity"); fd == nil || fd.Body == nil {
+			note("linkCollectionImpl.CheckIntegrity not found")
+		} else {
+			callsRemove := func(n ast.Node) bool {
+				found := false
+				ast.Inspect(n, func(m ast.Node) bool {
+					if call, ok := m.(*ast.CallExpr); ok {
+						if se, ok := call.Fun.(*ast.SelectorExpr); ok && se.Sel.Name == "RemoveLink" {
+							found = true
+						}
+					}
+					return true
+				})
+				return found
+			}
+			// the entity loop is the last top-level `for` of the body; its first nested `for` is the link-cursor loop
+			var outer *ast.ForStmt
+			for _, st := range fd.Body.List {
+				if fs, ok := st.(*ast.ForStmt); ok {
+					outer = fs
+				}
+			}
+			if outer == nil {
+				note("linkCollectionImpl.CheckIntegrity: entity loop not found")
+			} else {
+				var inner ast.Stmt
+				after := false
+				for _, st := range outer.Body.List {
+					switch x := st.(type) {
+					case *ast.ForStmt:
+						if inner == nil {
+							inner = x
+							continue
+						}
+						if callsRemove(x) {
+							after = true
+						}
+					case *ast.RangeStmt:
+						if inner != nil && callsRemove(x) {
+							after = true
+						}
+					}
+				}
+				switch {
+				case inner == nil:
+					note("linkCollectionImpl.CheckIntegrity: link-cursor loop not found")
+				case callsRemove(inner) && !after:
+					q.LinkRemoveDeferred = false
+				case !callsRemove(inner) && after:
+					q.LinkRemoveDeferred = true
+				default:
+					note("linkCollectionImpl.CheckIntegrity: RemoveLink neither only inside nor only after the link-cursor loop")
+				}
+			}
+		}
+	}
 	if f, err := parser.ParseFile(fset, filepath.Join(repo, "boltz", "indexes.go"), nil, 0); err != nil {
 		note("indexes.go does not parse")
 	} else if fd := c09Method(f, "uniqueIndex", "CheckIntegrity"); fd == nil || fd.Body == nil {
@@ -122,7 +182,9 @@ func extractC09Quirks(repo, gen, facts string) {
 		"def c09IterateLinksCreates : Bool := " + b(q.IterateLinksCreates) + "\n\n" +
 		"/-- uniqueIndex.CheckIntegrity's entity loop treats an empty value like nil -/\n" +
 		"def c09EmptyUniqueIsNil : Bool := " + b(q.EmptyUniqueIsNil) + "\n\n" +
-		"/-- both code sites had one of the shapes the model knows -/\n" +
+		"/-- linkCollectionImpl.CheckIntegrity removes dangling links after its link-cursor loop -/\n" +
+		"def c09LinkRemoveDeferred : Bool := " + b(q.LinkRemoveDeferred) + "\n\n" +
+		"/-- all code sites had one of the shapes the extractor knows -/\n" +
 		"def c09QuirksRecognised : Bool := " + b(q.Recognised) + "\n\n" +
 		"end StorageModel.Generated\n"
 	writeIfChanged(filepath.Join(gen, "C09Quirks.lean"), lean)
